@@ -10,6 +10,8 @@
 #include <unistd.h>
 #include <fcntl.h>
 #include <sys/types.h>
+#include <pthread.h>
+#include <setjmp.h>
 
 /* ------------------------------------------------------------------ seams (GNU ld --wrap) */
 static int H_NPROC = 1;                          /* what the MT_ kernels see as processor count      */
@@ -20,7 +22,35 @@ void __wrap_GetNProcessor(size_t *online, size_t *max) { if (online) *online = (
 static long H_KERNEL_CALLS = 0;
 void __wrap_MT_DVectorMatrixDotProduct(matrix *m, dvector *v, dvector *p) { H_KERNEL_CALLS++; vx_tick(H_TICKKEY); __real_MT_DVectorMatrixDotProduct(m, v, p); }
 void __wrap_MT_MatrixDVectorDotProduct(matrix *m, dvector *v, dvector *p) { H_KERNEL_CALLS++; vx_tick(H_TICKKEY); __real_MT_MatrixDVectorDotProduct(m, v, p); }
-static void fit_begin(int nproc, const char *tickkey) { H_NPROC = nproc; H_TICKKEY = tickkey; H_KERNEL_CALLS = 0; vx_tick_reset(); }
+
+/* Thread seam.  The MT_ kernels create one pthread per "processor" for EVERY matrix-vector product
+ * (2 per NIPALS iteration); a create+join costs 0.5-1 ms under ASan, which would limit the whole
+ * exploration to a few thousand fits.  The workers only read shared operands and write disjoint
+ * slices of the result, so running them one after the other on the calling thread executes exactly
+ * the same slicing arithmetic (from/to bounds per worker) with the same values; that is what C01/C02/C09
+ * quantify over ("every processor count seen by the kernels").  Real concurrency is property C13's.
+ * H_REAL_THREADS = 1 lets the calls through (used on a small sub-alphabet as a cross-check). */
+static int H_REAL_THREADS = 0;
+static long H_WORKERS = 0;
+static __thread int h_inline_depth = 0;
+static __thread jmp_buf *h_inline_jb = NULL;
+int  __real_pthread_create(pthread_t *t, const pthread_attr_t *a, void *(*fn)(void *), void *arg);
+int  __real_pthread_join(pthread_t t, void **r);
+void __real_pthread_exit(void *r) __attribute__((noreturn));
+int __wrap_pthread_create(pthread_t *t, const pthread_attr_t *a, void *(*fn)(void *), void *arg) {
+  H_WORKERS++;
+  if (H_REAL_THREADS) return __real_pthread_create(t, a, fn, arg);
+  jmp_buf jb; jmp_buf *saved = h_inline_jb;
+  h_inline_jb = &jb; h_inline_depth++;
+  if (setjmp(jb) == 0) fn(arg);
+  h_inline_depth--; h_inline_jb = saved;
+  memset(t, 0, sizeof *t);
+  return 0;
+}
+int __wrap_pthread_join(pthread_t t, void **r) { if (H_REAL_THREADS) return __real_pthread_join(t, r); if (r) *r = NULL; return 0; }
+void __wrap_pthread_exit(void *r) { if (h_inline_depth > 0) longjmp(*h_inline_jb, 1); __real_pthread_exit(r); }
+
+static void fit_begin(int nproc, int real_threads, const char *tickkey) { H_NPROC = nproc; H_REAL_THREADS = real_threads; H_TICKKEY = tickkey; H_KERNEL_CALLS = 0; H_WORKERS = 0; vx_tick_reset(); }
 
 /* ------------------------------------------------------------------ child probe
  * Runs fn(arg) in a forked child and tells whether the child died (sanitizer report, signal, abort).
